@@ -448,7 +448,9 @@ def plan(tier: str):
                 cases.append((tc, lvl, mon, grace, False, [f], "single", 0))
         # pairs: same round (every service order, both hash orders) and consecutive rounds
         if tier == "quick":
-            pool_ = ([f for f in singles if f[0] == "wdie" and f[2] == "rst" and f[1] in ("subscriber", "logger", "acked", "ackcopy2", "closedsub")]
+            pool_ = ([f for f in singles if f[0] == "wdie" and f[2] == "rst" and f[1] in ("subscriber", "logger", "acked", "ackcopy2", "closedsub", "failsub")]
+                     + [f for f in singles if f[0] == "wdie" and f[2] == "fin" and f[1] in ("subscriber", "logger", "subscriber+logger")]
+                     + [f for f in singles if f[0] == "adie" and f[3] == 1 and f[2] == "rst" and f[4] == "timers" and f[1] in ("infosub", "logger")]
                      + [f for f in singles if f[0] == "adie" and f[3] == 2 and f[2] == "fin" and f[4] == "publish" and f[1] in ("suball", "logger")]
                      + _crash_points_sample(tc))
         else:
